@@ -72,8 +72,11 @@ Definition deferred {A} (f : ghost -> ghost) (body : ghost -> A * ghost) (g : gh
 
 Section Server.
   Context {P : Type}.
-  (** what the store says for a height: no such block / another error / an accessor, whose Size() fails or yields the EDS width *)
-  Inductive lookup := LNotFound | LError | LAcc (size : option Z).
+  (** what the server's AccessorGetter says for a height: no such block / another error / an accessor, whose Size() fails or
+      yields the EDS width.  "No such block" is any error [e] with [errors.Is(e, store.ErrNotFound)]: the bare sentinel
+      (a plain store.Store) or one wrapped with context by a getter in front of the store ([wrapped = true]: store.CachedStore's
+      "unable to load accessor: %w", any %w decorator) — the handler must not distinguish them *)
+  Inductive lookup := LNotFound (wrapped : bool) | LError | LAcc (size : option Z).
   Variable store : Z -> lookup.
   Variable limit : Z.                               (* ReserveMemory(n) succeeds iff n <= limit (the resource manager's budget) *)
   Variable build : proto -> id -> built P.          (* the inner accessor's answer for an in-bounds identifier *)
@@ -89,7 +92,7 @@ Section Server.
     | Some i =>
       if negb (validate (pkind p) i) then (RDone OReset, g) else         (* statusBadRequest *)
       match store (h i) with
-      | LNotFound => (RDone (OStatus SNotFound), g)
+      | LNotFound _ => (RDone (OStatus SNotFound), g)                    (* errors.Is(err, store.ErrNotFound) *)
       | LError => (RDone (OStatus SInternal), g)
       | LAcc sz =>                                                       (* GetByHeight succeeded; defer file.Close() *)
         deferred close_acc (fun g =>
@@ -136,20 +139,23 @@ Definition sobs_eqb (x y : sobs) : bool :=
 (** faults the harness injects behind the real server: none / GetByHeight fails with another error / Size() fails /
     the accessor call of the ResponseReader fails / it panics *)
 Inductive fault := FNone | FStore | FSize | FBuildErr | FBuildPanic.
+(** the AccessorGetter the real Server was given: the plain store.Store / store.CachedStore (Store.WithCache) / a decorator wrapping errors with %w *)
+Inductive getter := GPlain | GCached | GWrapping.
+Definition getter_wraps (gt : getter) : bool := match gt with GPlain => false | _ => true end.
 
 Inductive scase :=
 | SHandle (p : proto) (bs : list Z)
           (heights : list (Z * Z))      (* stored heights and their EDS widths *)
-          (limit : Z) (build_ok : bool) (f : fault)
+          (limit : Z) (build_ok : bool) (f : fault) (gt : getter)
           (obs : sobs) (opened closed : nat) (reserved released : Z)
 | SSize (p : proto) (eds : Z) (i : id) (out : Z).        (* ResponseSize *)
 
 Fixpoint assoc (k : Z) (l : list (Z * Z)) : option Z :=
   match l with [] => None | (x, v) :: l' => if x =? k then Some v else assoc k l' end.
 
-Definition case_store (heights : list (Z * Z)) (f : fault) (hh : Z) : lookup :=
+Definition case_store (heights : list (Z * Z)) (f : fault) (gt : getter) (hh : Z) : lookup :=
   match assoc hh heights with
-  | None => LNotFound
+  | None => LNotFound (getter_wraps gt)
   | Some e => match f with FStore => LError | FSize => LAcc None | _ => LAcc (Some e) end
   end.
 Definition case_build (bok : bool) (f : fault) : proto -> id -> built unit :=
@@ -157,8 +163,8 @@ Definition case_build (bok : bool) (f : fault) : proto -> id -> built unit :=
 
 Definition model_case (c : scase) : bool :=
   match c with
-  | SHandle p bs heights lim bok f obs op cl rs rl =>
-    let '(o, g) := handle (case_store heights f) lim (case_build bok f) p bs in
+  | SHandle p bs heights lim bok f gt obs op cl rs rl =>
+    let '(o, g) := handle (case_store heights f gt) lim (case_build bok f) p bs in
     sobs_eqb (match o with OReset => SReset | OResetLimit => SResetLimit | OStatus SNotFound => SNF
                          | OStatus SInternal => SINT | OPayload _ => SOK end) obs &&
     Nat.eqb (g_opened g) op && Nat.eqb (g_closed g) cl && (g_reserved g =? rs) && (g_released g =? rl)
